@@ -97,6 +97,10 @@ structure State where
   delivered : Key → List Msg -- ghost: popped by `recv` or handed to the callback
   everOpen : Key → Bool      -- ghost
   remRemoved : Key → Bool    -- ghost: some `disconnect` removed the key from `_remote_sockets`
+  live : Key → Bool          -- ghost: the owner is between the first step of a `connect` and the end of a `disconnect`
+  cbMode : Key → Bool        -- ghost: the incarnation that last published the key uses callbacks
+  queued : Key → List Msg    -- ghost: messages appended to the queue of the key (queue path)
+  popped : Key → List Msg    -- ghost: messages popped from the queue of the key
 
 def upd {α : Type} (f : Key → α) (k : Key) (v : α) : Key → α := fun x => if x = k then v else f x
 
@@ -123,9 +127,11 @@ def step (s : State) (tid : Nat) : Option State :=
   let th := s.threads tid
   match th.pc with
   | .fin => none
-  | .cCbRecv k => some (setThread { s with recvCbs := upd s.recvCbs k true } tid (goto th (.cCbLost k)))
+  | .cCbRecv k => some (setThread { s with recvCbs := upd s.recvCbs k true, live := upd s.live k true }
+      tid (goto th (.cCbLost k)))
   | .cCbLost k => some (setThread { s with lostCbs := upd s.lostCbs k true } tid (goto th (.cOpen k true)))
-  | .cOpen k _ => some (setThread { s with open_ := upd s.open_ k true, everOpen := upd s.everOpen k true }
+  | .cOpen k cb => some (setThread { s with open_ := upd s.open_ k true, everOpen := upd s.everOpen k true,
+                                            live := upd s.live k true, cbMode := upd s.cbMode k cb }
       tid (goto th (.cRemote k)))
   | .cRemote k => some (setThread { s with remote := upd s.remote k true } tid (goto th (.cWaitOpen k)))
   | .cWaitOpen k =>
@@ -151,6 +157,7 @@ def step (s : State) (tid : Nat) : Option State :=
   | .sAppend k m =>
       some (setThread { s with msgs := upd s.msgs (rkey k) (s.msgs (rkey k) ++ [m]),
                                sent := upd s.sent (rkey k) (s.sent (rkey k) ++ [m]),
+                               queued := upd s.queued (rkey k) (s.queued (rkey k) ++ [m]),
                                lock := none }
         tid (advance tid th (.sent k m)))
   | .rLock k b =>
@@ -171,6 +178,7 @@ def step (s : State) (tid : Nat) : Option State :=
       | m :: q =>
         some (setThread { s with msgs := upd s.msgs k q,
                                  delivered := upd s.delivered k (s.delivered k ++ [m]),
+                                 popped := upd s.popped k (s.popped k ++ [m]),
                                  lock := none }
           tid (advance tid th (.got k m)))
   | .dLock k =>
@@ -193,7 +201,7 @@ def step (s : State) (tid : Nat) : Option State :=
         tid (goto th (.dPopRecv k)))
   | .dPopRecv k => some (setThread { s with recvCbs := upd s.recvCbs k false } tid (goto th (.dPopLost k)))
   | .dPopLost k =>
-      some (setThread { s with lostCbs := upd s.lostCbs k false, lock := none }
+      some (setThread { s with lostCbs := upd s.lostCbs k false, lock := none, live := upd s.live k false }
         tid (advance tid th (.disconnected k)))
 
 /-- a thread that has not started: parked in front of its first operation -/
@@ -208,7 +216,8 @@ def init (progs : List (List Op)) : State :=
     recvCbs := fun _ => false, lostCbs := fun _ => false, lock := none,
     threads := fun t => startThread t (progs.getD t []),
     cbStore := fun _ => [], lostLog := [], sent := fun _ => [], delivered := fun _ => [],
-    everOpen := fun _ => false, remRemoved := fun _ => false }
+    everOpen := fun _ => false, remRemoved := fun _ => false, live := fun _ => false,
+    cbMode := fun _ => false, queued := fun _ => [], popped := fun _ => [] }
 
 /-- states reachable under ANY schedule -/
 inductive Reachable (progs : List (List Op)) : State → Prop
